@@ -12,6 +12,7 @@ import sys
 from .. import model, satmodel, scriptmodel, symx, linform, maxplus
 from ..interp import Machine, Adt, Term, PyVec, Panic, explore, some, NONE, OPTION
 from ..report import Unsupported
+from ..builtins import deref
 from . import c04
 
 sys.path.insert(0, os.path.join(os.path.dirname(__file__), "..", ".."))
@@ -421,11 +422,7 @@ def check_script_accounting(chk, F):
                         want = linform.add(want, {1: cnt * keylen})
                     for i in range(nchild):
                         want = linform.add(want, {"pk_cost(%d)" % i: 1})
-                    if v in ("MultiA", "SortedMultiA") and n > 16:
-                        # known over-estimate (F14): tolerated only as >=
-                        good = all(got.get(k2, 0) >= c for k2, c in want.items())
-                    else:
-                        good = got == want
+                    good = got == want
                     chk.obligation(rid, good, "pk_cost|" + key,
                                    "ExtData pk_cost of %s (%s) is %s but the encoder's template is %s bytes long"
                                    % (v, ctxs or "any context", linform.show(got), linform.show(want)), where,
@@ -462,6 +459,27 @@ def check_script_accounting(chk, F):
                 elif last is not None and last[0] in ("verify", "key", "push", "num", "keyhash"):
                     chk.obligation(rid, hfv is False, "hfv|" + key,
                                    "has_free_verify of %s is %r but its script ends in %r" % (v, hfv, last), where)
+    # multi_a / sortedmulti_a take only (k, n): the whole grid across the breakpoints of the number push is cheap
+    try:
+        m = Machine(F, strict=True)
+        for fnname in ("multi_a", "sortedmulti_a"):
+            f = F.fn(fnname, file="types/extra_props.rs", container="ExtData")
+            chk.saw(f)
+            for n, k in [(1, 1), (3, 2), (16, 16), (17, 2), (17, 16), (17, 17), (127, 127), (128, 127), (128, 128), (200, 129),
+                         (999, 16), (999, 17), (999, 128), (999, 999)]:
+                r = m.call_path(f, [k, n])
+                got = deref(r.fields["pk_cost"])
+                numlen = 1 if k <= 16 else 2 if k < 0x80 else 3
+                want = 34 * n + numlen + 1
+                chk.obligation(rid, got == want, "pk_cost|%s(%d,%d)" % (fnname, k, n),
+                               "ExtData::%s(k=%d, n=%d).pk_cost is %r; the script (n 32-byte key pushes, CHECKSIG, n-1 "
+                               "CHECKSIGADD, the number k, NUMEQUAL) is %d bytes long" % (fnname, k, n, got, want), F.fns[f]["span"])
+    except KeyError as e:
+        chk.fail(rid, "anchor|multi_a", "missing anchor %s" % e, kind="unanalysable")
+    except Unsupported as e:
+        chk.fail(rid, "multi_a|unanalysable", "unanalysable: %s" % e, where, kind="unanalysable")
+    except Panic as e:
+        chk.fail(rid, "multi_a|panic", "panic: %s" % e, where)
 
 
 # ---- R09.7 static figures vs the satisfactions the satisfier produces -------------------------------------------------
